@@ -9,10 +9,11 @@
     ip  <pos> <poly>            in_polygon                    -> 0/1
     bp  <points>                bounds_of_points              -> rect
     geo <columns> <layers> <qtree> <queries>                  -> results joined by |
-    trk <columns> <line> <percolumn> <tol> <disttable>        -> track
+    trk <columns> <line> <percolumn> <disttable>              -> track
 *)
 From Coq Require Import Ascii String List Bool Arith ZArith PArith QArith Qreduction FMapPositive.
 From PTBase Require Import Exn PyStr PyNum PyVal Wire.
+From Gen Require Import GenGeom.
 From P Require Import Locate.
 Import ListNotations.
 Open Scope char_scope.
@@ -161,7 +162,7 @@ Definition gett (m : PositiveMap.t trkdata) (c : positive) : trkdata :=
 Definition show_seg (s : seg) : str :=
   show_pos (seg_col s) ++ s2l ":" ++ show_pt (seg_in s) ++ s2l ":" ++ show_pt (seg_out s).
 
-Definition run_trk (cols line percol tol dtab : str) : str :=
+Definition run_trk (cols line percol dtab : str) : str :=
   let cl := map parse_col (filter nonempty (split_c "|" cols)) in
   let m := mk_map 1%positive cl (PositiveMap.empty _) in
   let columnlist := ids_from 1%positive cl in
@@ -172,7 +173,7 @@ Definition run_trk (cols line percol tol dtab : str) : str :=
     (map show_seg
          (column_track (fun c => cd_poly (getc m c))
                        (fun c => td_lir (gett tm c)) (fun c => td_inters (gett tm c))
-                       (lookup_dist tbl) (fun c => td_maxside (gett tm c)) (parse_q tol)
+                       (lookup_dist tbl) (fun c => td_maxside (gett tm c)) track_tol
                        (fst ln) (snd ln) columnlist)).
 
 Definition run_case (line : str) : str :=
@@ -186,10 +187,10 @@ Definition run_case (line : str) : str :=
       else if str_eqb k (s2l "ri") then show_bool (rectangles_intersect (parse_rect a) (parse_rect b))
       else if str_eqb k (s2l "ip") then show_bool (in_polygon (parse_pt a) (parse_pts b))
       else s2l "BADCASE"
-  | [k; cols; lays; qspec; queries] =>
-      if str_eqb k (s2l "geo") then run_geo cols lays qspec queries else s2l "BADCASE"
-  | [k; cols; line; percol; tol; dtab] =>
-      if str_eqb k (s2l "trk") then run_trk cols line percol tol dtab else s2l "BADCASE"
+  | [k; a; b; c; d] =>
+      if str_eqb k (s2l "geo") then run_geo a b c d
+      else if str_eqb k (s2l "trk") then run_trk a b c d
+      else s2l "BADCASE"
   | _ => s2l "BADCASE"
   end.
 
